@@ -19,7 +19,7 @@ use serde::{Deserialize, Serialize};
 
 #[derive(Clone, Debug, Serialize, Deserialize)]
 pub enum Case {
-    Deflate { data: Recipe, level: i8, raw: bool, strategy: i8, steps: Vec<(u32, u32, i8)>, finish_out: u32, end_align: bool },
+    Deflate { data: Recipe, level: i8, raw: bool, strategy: i8, #[serde(default)] pre: Option<Vec<(u32, u32, i8)>>, steps: Vec<(u32, u32, i8)>, finish_out: u32, end_align: bool },
     Inflate { input: AnyInput, steps: Vec<(u32, u32, i8)>, end_align: bool },
     OneShot { data: Recipe, level: i8, dest_delta: i32, end_align: bool },
     Uncompress { input: AnyInput, dest_len: u32, end_align: bool },
@@ -73,21 +73,25 @@ impl Prop for P {
     fn strategy(_tier: Tier) -> BoxedStrategy<Case> {
         let step = (prop_oneof![0u32..=3, 1u32..=400, 1u32..=40_000], prop_oneof![1u32..=6, 1u32..=400, 1u32..=90_000], prop_oneof![6 => Just(0i8), 1 => Just(1i8), 1 => Just(2i8), 1 => Just(3i8)]);
         let steps = proptest::collection::vec(step, 0..8);
-        let defl = (recipe(30_000, 3), -1i8..=10, any::<bool>(), 0i8..=4, steps.clone(), prop_oneof![1u32..=7, 1u32..=500, Just(100_000u32)], any::<bool>()).prop_map(|(data, level, raw, strategy, steps, finish_out, end_align)| Case::Deflate { data, level, raw, strategy, steps, finish_out, end_align });
+        // earlier history on the same stream object (before mz_deflateReset): calls that offer no
+        // input at all (empty stream finished, flush with nothing) as well as ordinary ones
+        let pre_step = (prop_oneof![3 => Just(0u32), 1 => 0u32..=3, 1 => 1u32..=4000], prop_oneof![1u32..=6, 1u32..=400, Just(90_000u32)], prop_oneof![2 => Just(0i8), 1 => Just(1i8), 2 => Just(2i8), 1 => Just(3i8), 3 => Just(4i8)]);
+        let pre = proptest::option::weighted(0.3, proptest::collection::vec(pre_step, 0..4));
+        let defl = (recipe(30_000, 3), -1i8..=10, any::<bool>(), 0i8..=4, pre, steps.clone(), prop_oneof![1u32..=7, 1u32..=500, Just(100_000u32)], any::<bool>()).prop_map(|(data, level, raw, strategy, pre, steps, finish_out, end_align)| Case::Deflate { data, level, raw, strategy, pre, steps, finish_out, end_align });
         let input = prop_oneof![3 => valid_src(false).prop_map(|src| AnyInput { src, muts: vec![] }), 1 => any_input()];
         let istep = (prop_oneof![0u32..=3, 1u32..=400, Just(u32::MAX)], prop_oneof![0u32..=3, 1u32..=400, 1u32..=90_000], prop_oneof![6 => Just(0i8), 1 => Just(2i8), 2 => Just(4i8), 1 => Just(3i8), 1 => Just(1i8)]);
         let infl = (input.clone(), proptest::collection::vec(istep, 1..12), any::<bool>()).prop_map(|(input, steps, end_align)| Case::Inflate { input, steps, end_align });
         let one = (recipe(30_000, 3), -1i8..=10, prop_oneof![Just(0i32), -40i32..=40, -3000i32..=3000], any::<bool>()).prop_map(|(data, level, dest_delta, end_align)| Case::OneShot { data, level, dest_delta, end_align });
         let unc = (input.clone(), prop_oneof![0u32..=64, 0u32..=70_000], any::<bool>()).prop_map(|(input, dest_len, end_align)| Case::Uncompress { input, dest_len, end_align });
         let tinfl = (input, proptest::bits::u32::masked(1 | 2 | 4 | 8 | 64), prop_oneof![2 => Just(0u32), 4 => 0u32..=64, 4 => 0u32..=70_000], 0u32..=40, 0u8..4, any::<bool>()).prop_map(|(input, flags, out_len, start, mode, end_align)| Case::Tinfl { input, flags, out_len, start, mode, end_align });
-        let tdefl = (recipe(30_000, 3), -1i8..=10, any::<bool>(), 0u8..=4, 0u8..4, proptest::collection::vec(prop_oneof![0u32..=3, 1u32..=3000], 0..6), prop_oneof![0u32..=64, 0u32..=50_000], any::<bool>()).prop_map(|(data, level, zlib, strategy, mode, chunks, out_len, end_align)| Case::Tdefl { data, level, zlib, strategy, mode, chunks, out_len, end_align });
+        let tdefl = (recipe(30_000, 3), -1i8..=10, any::<bool>(), 0u8..=4, 0u8..6, proptest::collection::vec(prop_oneof![0u32..=3, 1u32..=3000], 0..6), prop_oneof![0u32..=64, 0u32..=50_000], any::<bool>()).prop_map(|(data, level, zlib, strategy, mode, chunks, out_len, end_align)| Case::Tdefl { data, level, zlib, strategy, mode, chunks, out_len, end_align });
         let par = (-3i32..=13, 0i32..=9, prop_oneof![Just(15i32), Just(-15i32), -16i32..=16], 0i32..=10, -1i32..=6, -1i32..=7).prop_map(|(level, method, window, mem_level, strategy, flush)| Case::Params { level, method, window, mem_level, strategy, flush });
         let hg = (0u8..=8, 0u16..=300, 0u8..4, 0u8..=10, any::<bool>(), any::<u64>()).prop_map(|(k, d, class, level, zlib, seed)| Case::HeapGrow { k, d, class, level, zlib, seed });
         prop_oneof![4 => defl, 4 => infl, 2 => one, 2 => unc, 3 => tinfl, 3 => tdefl, 2 => par, 3 => hg].boxed()
     }
     fn check(case: &Case, cx: &mut Ctx) -> Check {
         match case {
-            Case::Deflate { data, level, raw, strategy, steps, finish_out, end_align } => c_deflate(data, *level as i32, *raw, *strategy as i32, steps, *finish_out, *end_align, cx),
+            Case::Deflate { data, level, raw, strategy, pre, steps, finish_out, end_align } => c_deflate(data, *level as i32, *raw, *strategy as i32, pre.as_deref(), steps, *finish_out, *end_align, cx),
             Case::Inflate { input, steps, end_align } => c_inflate(input, steps, *end_align, cx),
             Case::OneShot { data, level, dest_delta, end_align } => c_oneshot(data, *level as i32, *dest_delta, *end_align, cx),
             Case::Uncompress { input, dest_len, end_align } => c_uncompress(input, *dest_len as usize, *end_align, cx),
@@ -135,7 +139,7 @@ impl Prop for P {
         match case {
             Case::Misuse { kind } => Some(format!("c17:crash:misuse:{}", misuse_name(*kind))),
             Case::Tinfl { mode, .. } => Some(format!("c17:crash:tinfl-mode{}", mode % 4)),
-            Case::Tdefl { mode, .. } => Some(format!("c17:crash:tdefl-mode{mode}")),
+            Case::Tdefl { mode, .. } => Some(format!("c17:crash:tdefl-mode{}", mode % 6)),
             Case::Deflate { .. } => Some("c17:crash:mz_deflate".into()),
             Case::Inflate { .. } => Some("c17:crash:mz_inflate".into()),
             Case::OneShot { .. } => Some("c17:crash:mz_compress".into()),
@@ -146,21 +150,21 @@ impl Prop for P {
     }
 }
 
+/// one phase of an mz_deflate history, C and Rust side by side; `finish_out`: after the listed
+/// steps keep calling with everything + MZ_FINISH until the stream ends
 #[allow(clippy::too_many_arguments)]
-fn c_deflate(data: &Recipe, level: i32, raw: bool, strategy: i32, steps: &[(u32, u32, i8)], finish_out: u32, end_align: bool, cx: &mut Ctx) -> Check {
-    let x = data.expand();
-    let wb = if raw { -15 } else { 15 };
-    let mut s = mz_stream::default();
-    // SAFETY: valid zeroed stream
-    let rc = unsafe { mz_deflateInit2(&mut s, level, 8, wb, 9, strategy) };
-    vensure!(rc == 0, "c17:deflate-init", "mz_deflateInit2 returned {rc}");
-    let mut r = CompressorOxide::new(create_comp_flags_from_zip_params(level, wb, strategy) | deflate_flags::TDEFL_COMPUTE_ADLER32);
+fn deflate_phase(s: &mut mz_stream, r: &mut CompressorOxide, x: &[u8], steps: &[(u32, u32, i8)], finish_out: Option<u32>, end_align: bool, calls: &mut u64, pending_small: &mut bool) -> Check {
     let mut ipos = 0usize;
     let mut i = 0usize;
-    let mut calls = 0u64;
-    let mut pending_small = false;
     loop {
-        let (take, osz, fl) = if i < steps.len() { let (a, b, f) = steps[i]; ((a as usize).min(x.len() - ipos), b.max(1) as usize, f as i32) } else { (x.len() - ipos, finish_out.max(1) as usize, 4) };
+        let (take, osz, fl) = if i < steps.len() {
+            let (a, b, f) = steps[i];
+            ((a as usize).min(x.len() - ipos), b.max(1) as usize, f as i32)
+        } else if let Some(fo) = finish_out {
+            (x.len() - ipos, fo.max(1) as usize, 4)
+        } else {
+            break;
+        };
         i += 1;
         let gin = GuardBuf::from_slice(&x[ipos..ipos + take], al(end_align));
         let mut gout = GuardBuf::new(osz, al(end_align));
@@ -168,26 +172,52 @@ fn c_deflate(data: &Recipe, level: i32, raw: bool, strategy: i32, steps: &[(u32,
         s.avail_in = take as c_uint;
         s.next_out = gout.ptr();
         s.avail_out = osz as c_uint;
-        let before = snap(&s);
+        let before = snap(s);
         // SAFETY: guard buffers describe exactly the accessible ranges
-        let rc = guard(|| unsafe { mz_deflate(&mut s, fl) }).map_err(|pm| Violation::new(panic_sig("c17:mz_deflate", &pm), format!("mz_deflate unwound: {pm}")))?;
-        let (din, dout) = check_accounting("mz_deflate", before, &s)?;
-        calls += 1;
+        let rc = guard(|| unsafe { mz_deflate(s, fl) }).map_err(|pm| Violation::new(panic_sig("c17:mz_deflate", &pm), format!("mz_deflate unwound: {pm}")))?;
+        let (din, dout) = check_accounting("mz_deflate", before, s)?;
+        *calls += 1;
         // Rust side
         let mut ro = vec![0u8; osz];
-        let rr = deflate(&mut r, &x[ipos..ipos + take], &mut ro, MZFlush::new(fl).map_err(|_| Violation::new("c17:harness", "flush"))?);
-        vensure!(rc == rc_of(rr.status) && din == rr.bytes_consumed && dout == rr.bytes_written, "c17:deflate-differs-from-rust", "call #{calls}: mz_deflate -> ({rc}, in {din}, out {dout}) but stream::deflate -> ({:?}, in {}, out {})", rr.status, rr.bytes_consumed, rr.bytes_written);
+        let rr = deflate(r, &x[ipos..ipos + take], &mut ro, MZFlush::new(fl).map_err(|_| Violation::new("c17:harness", "flush"))?);
+        vensure!(rc == rc_of(rr.status) && din == rr.bytes_consumed && dout == rr.bytes_written, "c17:deflate-differs-from-rust", "call #{calls}: mz_deflate(flush {fl}, avail_in {take}, avail_out {osz}) -> ({rc}, in {din}, out {dout}) but stream::deflate -> ({:?}, in {}, out {})", rr.status, rr.bytes_consumed, rr.bytes_written);
         vensure!(gout.as_slice()[..dout] == ro[..dout], "c17:deflate-bytes-differ", "call #{calls}: bytes written by mz_deflate differ from stream::deflate");
         vensure!(s.adler as u32 == r.adler32(), "c17:deflate-adler", "stream.adler {:#x} vs CompressorOxide::adler32 {:#x}", s.adler, r.adler32());
         if dout == osz && rc == 0 {
-            pending_small = true;
+            *pending_small = true;
         }
         ipos += din;
         let _ = gout.as_mut_slice();
-        if rc == 1 || rc < 0 && rc != -5 || calls > x.len() as u64 * 2 + 200_000 {
+        if rc == 1 || rc < 0 && rc != -5 || *calls > x.len() as u64 * 2 + 200_000 {
             break;
         }
     }
+    Ok(())
+}
+
+#[allow(clippy::too_many_arguments)]
+fn c_deflate(data: &Recipe, level: i32, raw: bool, strategy: i32, pre: Option<&[(u32, u32, i8)]>, steps: &[(u32, u32, i8)], finish_out: u32, end_align: bool, cx: &mut Ctx) -> Check {
+    let x = data.expand();
+    let wb = if raw { -15 } else { 15 };
+    let mut s = mz_stream::default();
+    // SAFETY: valid zeroed stream
+    let rc = unsafe { mz_deflateInit2(&mut s, level, 8, wb, 9, strategy) };
+    vensure!(rc == 0, "c17:deflate-init", "mz_deflateInit2 returned {rc}");
+    let mut r = CompressorOxide::new(create_comp_flags_from_zip_params(level, wb, strategy) | deflate_flags::TDEFL_COMPUTE_ADLER32);
+    let mut calls = 0u64;
+    let mut pending_small = false;
+    if let Some(pre) = pre {
+        // an earlier (complete, partial or empty) stream on the same object, then mz_deflateReset;
+        // the Rust counterpart is CompressorOxide::reset()
+        deflate_phase(&mut s, &mut r, &x, pre, None, end_align, &mut calls, &mut pending_small)?;
+        let used = s.total_in;
+        // SAFETY: initialised stream
+        let rc = guard(|| unsafe { mz_deflateReset(&mut s) }).map_err(|pm| Violation::new(panic_sig("c17:mz_deflateReset", &pm), format!("unwound: {pm}")))?;
+        vensure!(rc == 0 && s.total_in == 0 && s.total_out == 0, "c17:deflateReset", "mz_deflateReset returned {rc}, totals ({}, {})", s.total_in, s.total_out);
+        r.reset();
+        cx.class(&format!("deflate-history:reset-after-{}-calls,{}", pre.len(), if used == 0 { "no-input-consumed" } else { "input-consumed" }));
+    }
+    deflate_phase(&mut s, &mut r, &x, steps, Some(finish_out), end_align, &mut calls, &mut pending_small)?;
     // SAFETY: initialised stream
     let e = unsafe { mz_deflateEnd(&mut s) };
     vensure!(e == 0, "c17:deflate-end", "mz_deflateEnd returned {e}");
@@ -449,7 +479,100 @@ fn c_tdefl(data: &Recipe, level: i32, zlib: bool, strategy: i32, mode: u8, chunk
     vensure!(st == TDEFLStatus::Done, "c17:harness", "reference compress: {st:?}");
     let want = &big[..co];
     let gin = GuardBuf::from_slice(&x, al(end_align));
-    match mode % 4 {
+    match mode % 6 {
+        4 | 5 => {
+            // histories on one tdefl compressor object: an earlier tdefl_init (callback or buffer
+            // mode, same or different flags) with or without some use, then tdefl_init again and a
+            // complete stream through the callback (mode 4: tdefl_compress_buffer) or into buffers
+            // (mode 5: tdefl_compress), compared call by call with a fresh Rust compressor
+            let h = out_len;
+            let (pre, pre_cb, pre_same, pre_use, pre_finish) = (h & 1 == 1, h & 2 == 2, h & 4 == 4, h & 8 == 8, h & 16 == 16);
+            let final_cb = mode % 6 == 4;
+            // SAFETY: allocate/init/deallocate as documented
+            let c = unsafe { tdefl_allocate() };
+            let mut pre_sink = Sink { data: Vec::new() };
+            if pre {
+                let f1 = if pre_same { flags } else { create_comp_flags_from_zip_params((level + 1).rem_euclid(11), if zlib { -15 } else { 15 }, 0) };
+                // SAFETY: live compressor; the sink outlives every call made while it is installed
+                let ist = unsafe { tdefl_init(c.as_mut(), if pre_cb { Some(sink_put) } else { None }, if pre_cb { &mut pre_sink as *mut Sink as *mut c_void } else { std::ptr::null_mut() }, f1 as c_int) } as i32;
+                vensure!(ist == 0, "c17:tdefl_init", "first tdefl_init returned {ist}");
+                if pre_use {
+                    let take = x.len().min(1 + h % 700);
+                    let g = GuardBuf::from_slice(&x[..take], al(end_align));
+                    let fl = if pre_finish { tdefl_flush::TDEFL_FINISH } else { tdefl_flush::TDEFL_NO_FLUSH };
+                    if pre_cb {
+                        // SAFETY: guard buffer
+                        let st = unsafe { tdefl_compress_buffer(c.as_mut(), g.ptr() as *const c_void, take, fl) } as i32;
+                        vensure!(st == pre_finish as i32, "c17:tdefl_compress_buffer-status", "first use of the compressor: tdefl_compress_buffer returned {st}");
+                    } else {
+                        let go = GuardBuf::new(64, al(end_align));
+                        let (mut isz, mut osz) = (take, 64usize);
+                        // SAFETY: guard buffers
+                        let st = unsafe { tdefl_compress(c.as_mut(), g.ptr() as *const c_void, Some(&mut isz), go.ptr() as *mut c_void, Some(&mut osz), fl) } as i32;
+                        vensure!(st >= 0 && isz <= take && osz <= 64, "c17:tdefl_compress-status", "first use of the compressor: ({st}, {isz}, {osz})");
+                    }
+                }
+            }
+            let mut sink = Sink { data: Vec::new() };
+            // SAFETY: live compressor; the sink outlives every call made while it is installed
+            let ist = unsafe { tdefl_init(c.as_mut(), if final_cb { Some(sink_put) } else { None }, if final_cb { &mut sink as *mut Sink as *mut c_void } else { std::ptr::null_mut() }, flags as c_int) } as i32;
+            vensure!(ist == 0, "c17:tdefl_init", "tdefl_init returned {ist}");
+            let mut r = CompressorOxide::new(flags);
+            let mut rsink: Vec<u8> = Vec::new();
+            let mut pos = 0usize;
+            let mut i = 0usize;
+            let osz = 1 + (h >> 5);
+            let mut n = 0u64;
+            loop {
+                let last = i >= chunks.len();
+                let take = if last { x.len() - pos } else { (chunks[i] as usize).min(x.len() - pos) };
+                i += 1;
+                let g = GuardBuf::from_slice(&x[pos..pos + take], al(end_align));
+                let (cfl, rfl) = if last { (tdefl_flush::TDEFL_FINISH, TDEFLFlush::Finish) } else if take % 5 == 4 { (tdefl_flush::TDEFL_SYNC_FLUSH, TDEFLFlush::Sync) } else { (tdefl_flush::TDEFL_NO_FLUSH, TDEFLFlush::None) };
+                let (st, cin, rs, rin);
+                if final_cb {
+                    let before = sink.data.len();
+                    // SAFETY: guard buffer; the callback writes into `sink`
+                    st = guard(|| unsafe { tdefl_compress_buffer(c.as_mut(), g.ptr() as *const c_void, take, cfl) } as i32).map_err(|pm| Violation::new(panic_sig("c17:tdefl_compress_buffer", &pm), format!("unwound: {pm}")))?;
+                    let (a, b) = miniz_oxide::deflate::core::compress_to_output(&mut r, &x[pos..pos + take], rfl, |o: &[u8]| {
+                        rsink.extend_from_slice(o);
+                        true
+                    });
+                    rs = a as i32;
+                    rin = b;
+                    cin = rin; // tdefl_compress_buffer does not report the count
+                    vensure!(st == rs && sink.data == rsink, "c17:tdefl_compress_buffer-differs", "after {} earlier init(s) (callback {pre_cb}, same flags {pre_same}, used {pre_use}, finished {pre_finish}): tdefl_compress_buffer -> {st}, callback got {} new bytes ({} in total); compress_to_output -> {rs}, {} bytes in total", pre as u8, sink.data.len() - before, sink.data.len(), rsink.len());
+                } else {
+                    let go = GuardBuf::new(osz, al(end_align));
+                    let (mut isz, mut osz2) = (take, osz);
+                    // SAFETY: guard buffers
+                    st = guard(|| unsafe { tdefl_compress(c.as_mut(), g.ptr() as *const c_void, Some(&mut isz), go.ptr() as *mut c_void, Some(&mut osz2), cfl) } as i32).map_err(|pm| Violation::new(panic_sig("c17:tdefl_compress", &pm), format!("unwound: {pm}")))?;
+                    let mut ro = vec![0u8; osz];
+                    let (a, b, rout) = compress(&mut r, &x[pos..pos + take], &mut ro, rfl);
+                    rs = a as i32;
+                    rin = b;
+                    cin = isz;
+                    vensure!(st == rs && isz == rin && osz2 == rout && go.as_slice()[..rout] == ro[..rout], "c17:tdefl_compress-differs", "after {} earlier init(s) (callback {pre_cb}, same flags {pre_same}, used {pre_use}): tdefl_compress -> ({st}, {isz}, {osz2}); core::compress -> ({rs}, {rin}, {rout})", pre as u8);
+                    rsink.extend_from_slice(&ro[..rout]);
+                }
+                // SAFETY: live compressor
+                let (ps, pa) = unsafe { (tdefl_get_prev_return_status(c.as_mut()) as i32, tdefl_get_adler32(c.as_mut())) };
+                vensure!(ps == r.prev_return_status() as i32 && pa == r.adler32(), "c17:tdefl-getters", "prev status {ps} / adler {pa:#x} vs Rust {} / {:#x}", r.prev_return_status() as i32, r.adler32());
+                pos += cin;
+                n += 1;
+                if st != 0 || n > x.len() as u64 * 2 + 100_000 {
+                    break;
+                }
+            }
+            // SAFETY: allocated by tdefl_allocate
+            unsafe { tdefl_deallocate(c) };
+            // the finished stream is the plaintext again
+            let back = if zlib { miniz_oxide::inflate::decompress_to_vec_zlib(&rsink) } else { miniz_oxide::inflate::decompress_to_vec(&rsink) };
+            vensure!(back.ok().as_deref() == Some(&x[..]), "c17:tdefl-history-stream", "stream produced after re-initialisation does not decode to the input");
+            cx.evals(n);
+            cx.class(if final_cb { "fn:tdefl_compress_buffer(callback, after re-init history)" } else { "fn:tdefl_compress(after re-init history)" });
+            cx.class(&format!("tdefl-history:pre={}{}{}{}", pre as u8, if pre && pre_cb { ",cb" } else { "" }, if pre && pre_same { ",same-flags" } else { "" }, if pre && pre_use { ",used" } else { "" }));
+        }
         0 => {
             // tdefl_compress into buffers, chunked input, Finish at the end; compared call by call
             // SAFETY: allocate/init/deallocate as documented
